@@ -523,7 +523,8 @@ def rw_records(prop, which, table, rng, thorough=False):
             continue
         suffix = "@%+d" % (inst["sym"] - inst["place"]) if LABEL in text else ""
         recs.append({"t": "rw", "isa": which, "key": "%s:%s:%s:%s:%s%s" % (prop, which, cname, inst["tag"], text, suffix),
-                     "bytes": out["bytes"], "uses": uses, "defs": defs, "clob": clob, "text": text, "cls": cname, "tag": inst["tag"]})
+                     "bytes": out["bytes"], "uses": uses, "defs": defs, "clob": clob, "text": text, "cls": cname, "tag": inst["tag"],
+                     "seeds": [1, 2, 3, 4, 5, 6] if thorough else [1 + len(recs) % 6, 1 + (len(recs) + 3) % 6]})
     return recs, skipped
 
 
@@ -779,6 +780,8 @@ C07_WHAT = {
     "StaticWrites": "writes a register it does not declare as written or clobbered",
     "LinkWrite": "writes the link register without declaring it",
     "StaticReads": "reads a register it does not declare as read",
+    "NoUndeclaredChange": "executed by ArmExec it changes a register it does not declare as written or clobbered",
+    "OutputsDependOnDeclaredReads": "executed by ArmExec on two states that agree on the declared reads it produces different outputs",
 }
 
 
@@ -813,7 +816,8 @@ def c07_part(ctx, thorough):
         ctx.count(r["key"])
     for r in recs[:: max(1, len(recs) // 3)][:3]:
         ctx.sample({k: r[k] for k in ("key", "bytes", "uses", "defs", "clob")})
-    verdicts = judge(ctx, recs, ["StaticWrites", "LinkWrite", "StaticReads", "Decodable"], "E: C07 records (thumb, arm)")
+    verdicts = judge(ctx, recs, ["StaticWrites", "LinkWrite", "StaticReads", "NoUndeclaredChange", "OutputsDependOnDeclaredReads",
+                                 "Decodable"], "E: C07 records (thumb, arm)")
     undec = 0
     for rec, clause in verdicts:
         if clause == "Decodable":
